@@ -46,6 +46,7 @@ type HookRec struct {
 	P    int
 	Bar  int
 	A, B int
+	ptr  *mpb.Bar // set while Bar is not known yet (see resolveHooks)
 }
 
 type getterSnap struct {
@@ -217,12 +218,20 @@ func (rr *runRec) hook(pi int, bar *mpb.Bar, a, b int) {
 	t := tick()
 	bi := -1
 	if bar != nil {
-		if pi == hpAdd {
+		if pi == hpAdd && a >= 0 && a < len(rr.sc.Bars) && rr.sc.Bars[a].DupID == 0 {
+			// the harness gives a bar its own index as id ...
 			bi = a
 			rr.ptr2ix.Store(bar, a)
 		} else if v, ok := rr.ptr2ix.Load(bar); ok {
 			bi = v.(int)
 		}
+		// ... unless the scenario gives several bars one user-chosen id: those are only
+		// known once Add has handed the bar to its caller (addBar); events of such a bar
+		// recorded before that carry the pointer and are resolved by resolveHooks.
+	}
+	var unresolved *mpb.Bar
+	if bar != nil && bi < 0 {
+		unresolved = bar
 	}
 	occ := rr.hookOcc[pi].Add(1)
 	if pi == hpServeDone || pi == hpRenderEnd && b != 0 {
@@ -242,7 +251,7 @@ func (rr *runRec) hook(pi int, bar *mpb.Bar, a, b int) {
 	}
 	if pi != hpBarOp { // one per operation served by a bar: counted and used as a delay point, not logged
 		rr.mu.Lock()
-		rr.hooks = append(rr.hooks, HookRec{T: t, P: pi, Bar: bi, A: a, B: b})
+		rr.hooks = append(rr.hooks, HookRec{T: t, P: pi, Bar: bi, A: a, B: b, ptr: unresolved})
 		rr.mu.Unlock()
 	}
 
@@ -726,8 +735,24 @@ func (rr *runRec) addBar(bi int) string {
 		rr.addFailed[bi].Store(true)
 		return "nil"
 	}
+	rr.ptr2ix.Store(b, bi)
 	rr.setBar(bi, b)
 	return "ok"
+}
+
+// resolveHooks fills in the bar index of hook events that were recorded before the
+// harness knew which of its bars the pointer belongs to (bars with a shared user-chosen id).
+func (rr *runRec) resolveHooks() {
+	rr.mu.Lock()
+	defer rr.mu.Unlock()
+	for i := range rr.hooks {
+		if h := &rr.hooks[i]; h.ptr != nil && h.Bar < 0 {
+			if v, ok := rr.ptr2ix.Load(h.ptr); ok {
+				h.Bar = v.(int)
+				h.ptr = nil
+			}
+		}
+	}
 }
 
 func (rr *runRec) doOp(client, idx int, op Op) {
